@@ -298,7 +298,7 @@ Definition forget_missing (w : world) (f : fid) (r : row) (ns : stamp) : world :
   | SMissing =>
       if r_gen r
       then set_db w (put_row (dbs w) f
-             (upd_row r false (r_ovr r) (r_checked r) (r_changed r) (Some 0%Z) (r_stamp r) (r_csum r)))
+             (upd_row r false (r_ovr r) (r_checked r) (r_changed r) None (r_stamp r) (r_csum r)))
       else w
   | _ => w
   end.
@@ -639,7 +639,7 @@ Definition start (rec : rec_t) (fuel : nat) (e : env) (m : mode) (t : name) (w :
 (* command front end (ifchange.rs): record the dependencies of the enclosing
    target first; a target naming itself is refused (cyclic, 208) *)
 Definition frontend_deps (e : env) (m : mode) (ts : list name) (w : world) : world * bool :=
-  match m, e_target e, e_unlocked e with
+  match m, e_target e, e_unlocked e || e_no_oob e with
   | MIfChange, Some me, false =>
       if existsb (bytes_eqb me) ts then (w, true)
       else
